@@ -99,8 +99,12 @@ func fmtTh(th int64) string {
 	return s
 }
 
-func StrField(name, s string) Field  { return Field{Name: name, Tok: s, Kind: KString, Data: s, Num: "0"} }
-func JSONField(name, s string) Field { return Field{Name: name, Tok: s, Kind: KJSON, Data: s, Num: "0"} }
+func StrField(name, s string) Field {
+	return Field{Name: name, Tok: s, Kind: KString, Data: s, Num: "0"}
+}
+func JSONField(name, s string) Field {
+	return Field{Name: name, Tok: s, Kind: KJSON, Data: s, Num: "0"}
+}
 func LitField(name, lit string) Field {
 	switch lit {
 	case "true":
@@ -179,8 +183,8 @@ type Node struct {
 	Kids []*Node
 }
 
-func Lit(s string) *Node      { return &Node{Kind: "lit", Text: s} }
-func Ref(s string) *Node      { return &Node{Kind: "field", Text: s} }
+func Lit(s string) *Node          { return &Node{Kind: "lit", Text: s} }
+func Ref(s string) *Node          { return &Node{Kind: "field", Text: s} }
 func Un(op string, a *Node) *Node { return &Node{Kind: "un", Op: op, Kids: []*Node{a}} }
 func Bin(op string, a, b *Node) *Node {
 	return &Node{Kind: "bin", Op: op, Kids: []*Node{a, b}}
